@@ -560,3 +560,26 @@ pub fn exec_op(w: &mut World, op: &Op) -> OpRes {
         }
     }
 }
+
+/// Builds the world on a fresh OS thread under the given ambient entropy, so that
+/// several worlds of one scenario (twins) are bit-identical even for
+/// `MachineInitStrategy::Unseeded` and unseeded timers.
+pub fn build_on(scn: &MScn, entropy: u64) -> Result<Result<World, String>, String> {
+    struct SendWorld(Result<World, String>);
+    // SAFETY: the world is handed over before anything else touches it; no guard is held at build time.
+    unsafe impl Send for SendWorld {}
+    let r = std::thread::scope(|s| {
+        std::thread::Builder::new()
+            .stack_size(8 << 20)
+            .spawn_scoped(s, || {
+                crate::entropy::set_thread_entropy(entropy);
+                SendWorld(build(scn))
+            })
+            .expect("spawn")
+            .join()
+    });
+    match r {
+        Ok(w) => Ok(w.0),
+        Err(p) => Err(crate::runner::panic_msg(&p)),
+    }
+}
